@@ -260,7 +260,8 @@ def build_plan(edges_path, plan_path, k, sim_path=None):
     rtopo = topo[::-1]
     gain = [0] * n
     left = m
-    while left > 0:
+    productive = True
+    while left > 0 and productive:
         for u in rtopo:
             g = 0
             for e in out[u]:
@@ -268,7 +269,7 @@ def build_plan(edges_path, plan_path, k, sim_path=None):
                 if x > g:
                     g = x
             gain[u] = g
-        batch = 0
+        batch = got = 0
         while left > 0 and batch < max(12, m // 400):
             path, new, v = [], 0, root
             while out[v]:
@@ -285,8 +286,29 @@ def build_plan(edges_path, plan_path, k, sim_path=None):
             if new == 0:
                 break                                                     # stale gains: refresh
             left -= new
+            got += new
             paths.append(path)
             batch += 1
+        productive = batch > 0 and got >= 3 * batch
+    # the rest, edge by edge: shortest prefix to the edge, then uncovered edges first, then the shortest completion
+    for e0 in range(m):
+        if covered[e0]:
+            continue
+        pre, v = [], src[e0]
+        while par[v] >= 0:
+            pre.append(par[v])
+            v = src[par[v]]
+        pre.reverse()
+        path, v = pre + [e0], dst[e0]
+        while out[v]:
+            e = next((e for e in out[v] if not covered[e]), None)
+            if e is None:
+                e = nxt[v]
+            path.append(e)
+            v = dst[e]
+        for e in path:
+            covered[e] = 1
+        paths.append(path)
     assert all(covered)
     ncover = len(paths)
     if sim_path:
@@ -549,6 +571,12 @@ def stress(ck, tier):
     return out
 
 
+class DirOnly:
+    """what one_config needs from a Check, picklable"""
+    def __init__(self, d):
+        self.dir = d
+
+
 def one_config(ck, k, tier, shards):
     """TLC safety + edge emission -> schedules -> baton replay, for one configuration."""
     t0 = time.time()
@@ -587,9 +615,10 @@ def run(tier):
     t0 = time.time()
     live_cfgs = [k for k in cfgs if (len(k["p1"]) + len(k["p2"]) + len(k["p3"]) <= 3) or tier == "thorough"]
     # biggest configurations first; everything (TLC safety+edges -> replay, TLC liveness, probes) shares one pool
-    with cf.ThreadPoolExecutor(max_workers=5 if tier == "quick" else 6) as ex:
+    # configurations run in worker processes (building the schedules is CPU-bound Python), the rest in threads
+    with cf.ThreadPoolExecutor(max_workers=4) as ex, cf.ProcessPoolExecutor(max_workers=4 if tier == "quick" else 5) as px:
         order = sorted(cfgs, key=lambda k: -(len(k["p1"]) + len(k["p2"]) + len(k["p3"]) + (2 if k["stop"] else 0)))
-        futs = {label_of(k): ex.submit(one_config, ck, k, tier, shards) for k in order}
+        futs = {label_of(k): px.submit(one_config, DirOnly(ck.dir), k, tier, shards) for k in order}
         pfuts = [(dev, k, inv, name, ex.submit(probe_witness, ck, dev, k, inv, name)) for dev, k, inv, name in PROBES]
         lfuts = [ex.submit(liveness, k, tier) for k in live_cfgs]
         sfut = ex.submit(stress, ck, tier)
